@@ -12,7 +12,7 @@ KNOWN_FILE = os.path.join(VERIF_DIR, 'known_findings.json')
 
 
 class Instance(object):
-    __slots__ = ('rule', 'key', 'status', 'site', 'detail', 'path')
+    __slots__ = ('rule', 'key', 'status', 'site', 'detail', 'path', 'sure')
 
     def __init__(self, rule, key, status, site, detail, path=None):
         self.rule = rule
@@ -21,6 +21,7 @@ class Instance(object):
         self.site = site
         self.detail = detail
         self.path = path
+        self.sure = False
 
     def as_dict(self):
         d = {'rule': self.rule, 'key': self.key, 'status': self.status, 'site': self.site, 'detail': self.detail}
@@ -49,8 +50,12 @@ class Rule(object):
     def ok(self, key, site='', detail=''):
         self._add(key, HOLDS, site, detail)
 
-    def violated(self, key, site, detail, path=None):
+    def violated(self, key, site, detail, path=None, sure=False):
+        """sure=True: the verdict rests on a fact established on the code as it stands (an effect, an unguarded index, an
+        operation that cannot carry the needed information), not on a difference from the shape the rule knows; such an
+        instance is reported whatever the structural distance from the confirmed tree (DESIGN.md 12.5)"""
         self._add(key, VIOLATED, site, detail, path)
+        self.instances[-1].sure = sure
 
     def undecided(self, key, site, detail):
         self._add(key, UNDECIDED, site, detail)
@@ -135,7 +140,7 @@ def summarise(ctx, known):
     downgraded = 0
     for r in ctx.rules:
         for i in r.instances:
-            if i.status == VIOLATED and match_known(known, ctx.prop, i) is None and getattr(r, 'engine', '') != 'EFFECT':
+            if i.status == VIOLATED and match_known(known, ctx.prop, i) is None and getattr(r, 'engine', '') != 'EFFECT' and not i.sure:
                 f = (i.site or '').split(':')[0]
                 d = sum(per_file.values()) if per_file else 0
                 if d > MAX_DISTANCE:
